@@ -202,6 +202,11 @@ namespace vw
                 ov[{ o.first / g.cols, o.first % g.cols }] = to_status(o.second);
             typename G::shape_type shape = { g.rows, g.cols };
             typename G::spacing_type spacing = { g.dy, g.dx };
+            if (g.from_length)
+            {
+                typename G::length_type length = { g.dy * static_cast<double>(g.rows - 1), g.dx * static_cast<double>(g.cols - 1) };
+                return std::make_unique<G>(G::from_length(shape, length, bs, ov));
+            }
             return std::make_unique<G>(shape, spacing, bs, ov);
         }
     };
@@ -216,6 +221,8 @@ namespace vw
             typename G::nodes_status_map_type ov;
             for (const auto& o : g.overrides)
                 ov[o.first] = to_status(o.second);
+            if (g.from_length)
+                return std::make_unique<G>(G::from_length(g.cols, g.dx * static_cast<double>(g.cols - 1), bs, ov));
             return std::make_unique<G>(g.cols, g.dx, bs, ov);
         }
     };
